@@ -228,9 +228,9 @@ def check_walk_scenarios(chk, ix, rule="L10"):
     from .rules_summary import build_tree, _attr_stubs
     chk.rule(rule, WHAT["L10"])
     f = ix.func("behave.model:ScenarioContainer.walk_scenarios")
-    for kw, want in (({}, ["S0", "S1", "S2", "O1", "O2", "S3"]),
-                     ({"with_outlines": True}, ["S0", "S1", "S2", "O", "O1", "O2", "S3"]),
-                     ({"with_rules": True}, ["S0", "S1", "R0", "R1", "S2", "O1", "O2", "S3"])):
+    for kw, want in (({}, ["S0", "S1", "S2", "O1", "O2", "S3", "S2-twin", "O1-twin"]),
+                     ({"with_outlines": True}, ["S0", "S1", "S2", "O", "O1", "O2", "S3", "S2-twin", "O1-twin"]),
+                     ({"with_rules": True}, ["S0", "S1", "R0", "R1", "S2", "O1", "O2", "S3", "R2", "S2-twin", "O1-twin"])):
         it = Interp(ix, attr_stubs=_attr_stubs(), name="walk_scenarios")
         it.list_cap = 100
         it.int_sat = 100
@@ -246,7 +246,7 @@ def check_walk_scenarios(chk, ix, rule="L10"):
         s2 = outs[0][0]
         got = [s2.obj(x).label if isinstance(x, Ref) else repr(x) for x in s2.obj(outs[0][2]).items]
         if got == want:
-            chk.ok(rule, {"feature": "F[S0, S1, R0[], R1[S2, O[O1, O2]], S3]", "arguments": kw, "walk_scenarios": got}, nontrivial_key=repr(kw))
+            chk.ok(rule, {"feature": "F[S0, S1, R0[], R1[S2, O[O1, O2]], S3, R2[S2-twin, O1-twin]]", "arguments": kw, "walk_scenarios": got}, nontrivial_key=repr(kw))
         else:
             _fail(chk, rule, f, "%s -> %s" % (kw or "()", got), "walk_scenarios(%s) of the feature F[S0, S1, R0[], R1[S2, Outline O[O1, O2]], S3] "
                   "yields %s; expected %s (outline rows inside a rule belong to the flat list)" % (
